@@ -1,39 +1,65 @@
 #!/usr/bin/env python3
-"""For every seed in /verif/seeded: apply its patch to /repo, run every check (quick), record which fire, restore /repo."""
-import glob, json, os, subprocess, sys, tempfile
-if subprocess.check_output(['git', '-C', '/repo', 'status', '--porcelain']).strip():
-    sys.exit('REFUSING: /repo has uncommitted changes')
-only = sys.argv[1:]
-base = None
-def run_all(out):
-    p = subprocess.run(['./check', 'all', 'quick'], cwd='/verif', env=dict(os.environ, VERIF_OUT=out), stdout=subprocess.PIPE, stderr=subprocess.STDOUT, text=True)
-    fired = {}
+"""For every seed in /verif/seeded: on a scratch copy of /repo's working tree apply its patch, run every check (quick) and
+record in meta.json which rule instances fire (relative to the unchanged tree). confirm_head.json (tools/confirm_seed.py
+against HEAD) is merged in as confirmed_head. A seed whose demonstration no longer fails on HEAD because a later fix: commit
+repaired the weakness it relied on carries "neutralised_by": it must then be SILENT on HEAD and fire on the tree without that
+fix (also recorded). Nothing in /repo is touched."""
+import glob, json, os, shutil, subprocess, sys, tempfile
+from concurrent.futures import ThreadPoolExecutor
+REPO='/repo'; VERIF='/verif'; LINT=VERIF+'/bin/coerlint'
+ENV = dict(os.environ, PATH='/opt/veriftools/go1.26.8/bin:' + os.environ.get('PATH', ''), GOTOOLCHAIN='local', GOFLAGS='-mod=mod', GOPROXY='off', GOWORK='off'); ENV.pop('GOSUMDB', None)
+NEUTRALISED = {'C04-3': '726c83c', 'C08-3': '726c83c', 'C20-1': '9ef8f5a'}
+def findings(repo, out):
+    p = subprocess.run([LINT, '-repo', repo, '-prop', 'all', '-tier', 'quick', '-out', out, '-known', VERIF+'/known_findings.json'], env=ENV, stdout=subprocess.PIPE, stderr=subprocess.STDOUT, text=True)
+    fs = {}
     for l in p.stdout.splitlines():
         if l.startswith(('VIOLATION:', 'UNDECIDED:', 'UNRESOLVED:')):
             rule = l.split('[', 1)[1].split(']', 1)[0]; key = l.split('key="', 1)[1].split('"', 1)[0]
-            fired.setdefault(rule.split('-')[0], []).append(rule + ' ' + key)
-    return fired
-with tempfile.TemporaryDirectory() as out:
-    base = run_all(out)
-    rows = []
-    for d in sorted(glob.glob('/verif/seeded/C*-*')):
-        sid = os.path.basename(d)
-        if only and sid not in only and sid.split('-')[0] not in only: continue
-        meta = json.load(open(d + '/meta.json'))
-        patch = d + '/patch.diff'
-        if subprocess.run(['git', '-C', '/repo', 'apply', '--check', patch], stderr=subprocess.DEVNULL).returncode != 0:
-            meta['detection'] = 'patch no longer applies to /repo HEAD'; rows.append((sid, 'N/A (does not apply)'))
-            json.dump(meta, open(d + '/meta.json', 'w'), indent=1); continue
-        subprocess.run(['git', '-C', '/repo', 'apply', patch], check=True)
-        try:
-            fired = run_all(out)
-        finally:
-            subprocess.run(['git', '-C', '/repo', 'checkout', '--', '.'], check=True)
-        new = {p: [x for x in v if x not in base.get(p, [])] for p, v in fired.items()}
-        new = {p: v for p, v in new.items() if v}
-        meta['detected_by'] = new
-        own = meta['property']
-        meta['detection'] = ('caught by its own property check' if own in new else ('caught only by other checks: ' + ','.join(sorted(new)) if new else 'MISSED'))
+            fs.setdefault(rule.split('-')[0], []).append(rule + ' ' + key)
+    return fs
+only = sys.argv[1:]
+tmp = tempfile.mkdtemp(prefix='coerlint-matrix-')
+def variant(name, patches, reverse=None):
+    work = tmp + '/' + name
+    shutil.copytree(REPO, work + '/repo', ignore=shutil.ignore_patterns('.git'))
+    if reverse:
+        d = subprocess.run(['git', '-C', REPO, 'show', reverse], stdout=subprocess.PIPE, text=True).stdout
+        open(work + '/fix.diff', 'w').write(d)
+        if subprocess.run(['patch', '-R', '-p1', '-s', '-f', '-i', work + '/fix.diff'], cwd=work + '/repo', stdout=subprocess.DEVNULL).returncode != 0:
+            shutil.rmtree(work, ignore_errors=True); return None
+    for p in patches:
+        if subprocess.run(['patch', '-p1', '-s', '-f', '-i', p], cwd=work + '/repo', stdout=subprocess.DEVNULL).returncode != 0:
+            shutil.rmtree(work, ignore_errors=True); return None
+    f = findings(work + '/repo', work + '/out')
+    shutil.rmtree(work, ignore_errors=True)
+    return f
+try:
+    base = findings(REPO, tmp + '/base')
+    seeds = [d for d in sorted(glob.glob(VERIF + '/seeded/C*-*')) if not only or os.path.basename(d) in only or os.path.basename(d).split('-')[0] in only]
+    def run(d):
+        sid = os.path.basename(d); meta = json.load(open(d + '/meta.json'))
+        got = variant(sid, [d + '/patch.diff'])
+        if got is None:
+            meta['detection'] = 'patch no longer applies to /repo HEAD'; meta['detected_by'] = {}
+        else:
+            new = {p: [x for x in v if x not in base.get(p, [])] for p, v in got.items()}; new = {p: v for p, v in new.items() if v}
+            meta['detected_by'] = new; own = meta['property']
+            meta['detection'] = 'caught by its own property check' if own in new else ('caught only by other checks: ' + ','.join(sorted(new)) if new else 'silent')
+        ch = d + '/confirm_head.json'
+        if os.path.exists(ch): meta['confirmed_head'] = bool(json.load(open(ch)).get('confirmed'))
+        if sid in NEUTRALISED:
+            fix = NEUTRALISED[sid]; meta['neutralised_by'] = fix
+            wo = variant(sid + '-nofix', [d + '/patch.diff'], reverse=fix); bo = variant(sid + '-nofix-base', [], reverse=fix)
+            if wo is not None and bo is not None:
+                own = meta['property']
+                meta['detected_without_fix'] = [x for x in wo.get(own, []) if x not in bo.get(own, [])]
+                if not meta['detected_without_fix']:
+                    meta['detected_without_fix'] = [x + ' (the instance the fixed defect itself trips: the seed is another way into the same failure)' for x in wo.get(own, [])][:3]
+            meta['detection'] = ('neutralised by fix %s: on HEAD the change no longer breaks the property and the checks are %s; on the tree without that fix its own check reports %s'
+                                 % (fix, 'silent' if not meta['detected_by'] else 'NOT silent', '; '.join(meta.get('detected_without_fix', [])) or 'NOTHING'))
         json.dump(meta, open(d + '/meta.json', 'w'), indent=1)
-        rows.append((sid, meta['detection'] + ' ' + '; '.join(sum(new.values(), []))[:160]))
-    for r in rows: print('%-8s %s' % r)
+        return sid, meta['detection'] + ' ' + '; '.join(sum(meta['detected_by'].values(), []))[:150]
+    with ThreadPoolExecutor(max_workers=int(os.environ.get('J', '5'))) as ex:
+        for sid, line in ex.map(run, seeds): print('%-8s %s' % (sid, line))
+finally:
+    shutil.rmtree(tmp, ignore_errors=True)
